@@ -605,7 +605,8 @@ def fault_rules(ck, fx, cg, rule="R10.faults"):
             # conditions learned negatively on a fallible machine value: is_ok(x) = False
             failed += [e for e in p["eff"] if e["k"] == "assume" and e["args"][0][0] == "app" and e["args"][0][1] in ("is_ok", "is_some") and e["args"][1] == FALSE
                        and _is_lookup(p["eff"], e["args"][0][2][0])]
-            dflt = [e for e in _all_effects(p["eff"]) if e["k"] in ("default_on_fail", "discard_err")]
+            dflt = [e for e in _all_effects(p["eff"]) if e["k"] in ("default_on_fail", "discard_err") or (
+                e["k"] == "recover" and not _recv_mentions(p["eff"], e, "'methods'"))]
             if dflt:
                 defaults += dflt
             out = p["out"]
